@@ -252,3 +252,62 @@ func genC18(t *rapid.T) c18Case {
 }
 
 func TestC18(t *testing.T) { runPropJ(t, "C18", genC18, checkC18, true) }
+
+// c18Many: one entry point called Calls times in a row in the same process, alternating between two inputs of different
+// length; every result must be bit-identical to the first result for that input ("returns bit-identical results when
+// called again"), however many calls came before.
+type c18Many struct {
+	Test  int  `json:"test"`
+	Param int  `json:"param"`
+	Bytes bool `json:"bytes"`
+	Calls int  `json:"calls"`
+}
+
+func checkC18Many(c c18Many) (Outcome, error) {
+	t := tests[c.Test]
+	n := (max(minBitsFor(t, c.Param), 128) + 7) / 8 * 8
+	out := Outcome{Classes: []string{"many-calls", "many-calls:" + t.Key}, NonTrivial: true}
+	var ins [2][]bool
+	var ind [2][]byte
+	for i := range ins {
+		ins[i] = gen.Seq{Family: "uniform", N: n * (1 + i) + 8*i, Seed: uint64(400 + 10*c.Test + i)}.Expand()
+		ind[i] = gen.Pack(ins[i])
+	}
+	call := func(i int) vals {
+		if c.Bytes {
+			return t.Bytes(ind[i], c.Param)
+		}
+		return t.Bits(ins[i], c.Param)
+	}
+	first := [2]vals{call(0), call(1)}
+	for k := 0; k < c.Calls; k++ {
+		if got := call(k & 1); !sameBits(got, first[k&1]) {
+			return out, violation("many-calls:"+t.Key, "%s param=%d (bytes=%v): call number %d on the same %d-bit input returned %v, the first call returned %v", t.Key, c.Param, c.Bytes, k+3, len(ins[k&1]), got, first[k&1])
+		}
+	}
+	return out, nil
+}
+
+// TestC18ManyCalls: more calls than a 16-bit counter can hold, for every test, documented parameter and entry point.
+func TestC18ManyCalls(t *testing.T) {
+	calls := envInt("VERIF_CALLS", 70000)
+	part, parts := envInt("VERIF_PART", 0), envInt("VERIF_PARTS", 1)
+	var cases []c18Many
+	k := 0
+	for _, td := range tests {
+		for _, p := range td.Params {
+			for _, by := range []bool{false, true} {
+				k++
+				if k%parts != part {
+					continue
+				}
+				n := calls
+				if td.Key == "lincomp" && p > 500 { // quadratic in the block length: 1000 -> a quarter, 5000 -> a hundredth of the calls
+					n = calls * 500 * 500 / (p * p)
+				}
+				cases = append(cases, c18Many{Test: td.Idx, Param: p, Bytes: by, Calls: n})
+			}
+		}
+	}
+	enumerate(t, "C18", cases, checkC18Many)
+}
